@@ -126,11 +126,11 @@ def check_bed(rows, segments, cfg, show):
         feat = _feat(seg, cls)
         cn = row[3]
         if not _is_int(cn):
-            problems.append(("the copy number listed is an integer", f"cn-not-integer/{feat}", "an integer", repr(cn)))
+            problems.append(("the copy number listed is an integer", f"cn-not-integer/{_cn_feat(seg, cls)}", "an integer", repr(cn)))
             continue
         cn = int(cn)
         if cands is not None and cn not in cands:
-            problems.append(("the copy number listed is the segment's copy number (cn, or round(r*2^log2))", f"cn/{feat}", sorted(cands), cn))
+            problems.append(("the copy number listed is the segment's copy number (cn, or round(r*2^log2))", f"cn/{_cn_feat(seg, cls)}", sorted(cands), cn))
             continue
         if _selected(show, cn, cfg.ploidy, exp) is False:
             problems.append((_bed_clause(show), f"extra-row/{feat}", "not listed", list(row)))
@@ -155,7 +155,13 @@ def _bed_clause(show):
 
 
 def _feat(seg, cls):
-    return cls + "/" + ("cn-column" if "cn" in seg else "from-log2")
+    """Finding-key feature of a membership clause: the bin class decides the expected copies."""
+    return cls
+
+
+def _cn_feat(seg, cls):
+    """Finding-key feature of a copy-number clause: where the copy number comes from, and whether r is the autosomal one."""
+    return ("cn-column" if "cn" in seg else "from-log2") + "/" + ("autosome" if cls == "auto" else "sex-chromosome")
 
 
 def _is_int(v):
@@ -259,11 +265,11 @@ def check_vcf(records, segments, cfg):
         if svtype == "DUP":
             cn = (rec["format"] or {}).get("CN")
             if cn is None or not _is_int(cn):
-                problems.append(("the sample field carries the copy number for gains", f"cn-field-missing/{feat}", "CN=<integer>", rec["line"].split("\t")[8:]))
+                problems.append(("the sample field carries the copy number for gains", f"cn-field-missing/{_cn_feat(seg, cls)}", "CN=<integer>", rec["line"].split("\t")[8:]))
                 continue
             cn = int(cn)
             if cands is not None and cn not in cands:
-                problems.append(("the sample field carries the copy number for gains", f"cn-field/{feat}", sorted(cands), cn))
+                problems.append(("the sample field carries the copy number for gains", f"cn-field/{_cn_feat(seg, cls)}", sorted(cands), cn))
                 continue
             if exp is not None and not cn > exp:
                 problems.append(
@@ -401,6 +407,9 @@ def check_bin_table(header, rows, label_col, samples, rel_tol):
             return problems
     used = set()
     for row in rows:
+        if len(row) <= li:
+            problems.append(("each row carries the bin's label", "label-column", label_col, list(row)))
+            return problems
         hit = [k for k, b in enumerate(bins) if label_names_bin(row[li], b)]
         if len(hit) != 1 or hit[0] in used:
             problems.append(("each row carries the label of one bin, each bin once", "label", [(b["chrom"], b["start"], b["end"]) for b in bins], row[li]))
@@ -411,10 +420,10 @@ def check_bin_table(header, rows, label_col, samples, rel_tol):
             want = sorted(_bin_of(sb, bins[k])["log2"] for s2, sb in samples if s2 == sid)
             try:
                 got = sorted(float(row[i]) for i in cols[sid])
-            except (TypeError, ValueError):
+            except (TypeError, ValueError, IndexError):  # a row shorter than the header: a column was lost
                 got = None
             if got is None or len(got) != len(want) or not all(_close(g, w, rel_tol) for g, w in zip(got, want)):
-                problems.append(("each sample's column holds that sample's log2 of the row's bin", "value", {sid: want}, [row[i] for i in cols[sid]]))
+                problems.append(("each sample's column holds that sample's log2 of the row's bin", "value", {sid: want}, list(row)))
                 return problems
     return problems
 
